@@ -10,12 +10,12 @@ theorem encode_ne_null : ∀ (t : Ty) (v : Val), WT t v → encode t v ≠ .null
   | .str _, .str _, _ => by simp [encode]
   | .bool, .bool _, _ => by simp [encode]
   | .arr _ _ _, .arr _, _ => by simp [encode]
-  | .obj _, .obj _, _ => by simp [encode]
+  | .obj _ _, .obj _, _ => by simp [encode]
   | .int _, .omitted, h | .int _, .null, h | .int _, .str _, h | .int _, .bool _, h | .int _, .arr _, h | .int _, .obj _, h => by simp [WT] at h
   | .str _, .omitted, h | .str _, .null, h | .str _, .int _, h | .str _, .bool _, h | .str _, .arr _, h | .str _, .obj _, h => by simp [WT] at h
   | .bool, .omitted, h | .bool, .null, h | .bool, .int _, h | .bool, .str _, h | .bool, .arr _, h | .bool, .obj _, h => by simp [WT] at h
   | .arr _ _ _, .omitted, h | .arr _ _ _, .null, h | .arr _ _ _, .int _, h | .arr _ _ _, .str _, h | .arr _ _ _, .bool _, h | .arr _ _ _, .obj _, h => by simp [WT] at h
-  | .obj _, .omitted, h | .obj _, .null, h | .obj _, .int _, h | .obj _, .str _, h | .obj _, .bool _, h | .obj _, .arr _, h => by simp [WT] at h
+  | .obj _ _, .omitted, h | .obj _ _, .null, h | .obj _ _, .int _, h | .obj _ _, .str _, h | .obj _ _, .bool _, h | .obj _ _, .arr _, h => by simp [WT] at h
 
 theorem findIdx_hit (pre : List Field) (n : String) (req nul : Bool) (t : Ty) (rest : List Field) (i : Nat)
     (h : n ∉ names pre) : findIdx (pre ++ (n, req, nul, t) :: rest) n i = some (i + pre.length, nul, t) := by
@@ -60,24 +60,24 @@ theorem wfs_append (a b : List Field) : Ty.WF.WFs (a ++ b) ↔ Ty.WF.WFs a ∧ T
 mutual
 /-- **round trip**: every value of the type comes back from its own encoding -/
 theorem decode_encode : ∀ (t : Ty) (v : Val), t.WF → WT t v → decode t (encode t v) = some v
-  | .int _, .int _, _, _ => by simp [encode, decode]
+  | .int _, .int _, _, h => by simp only [WT] at h; simp [encode, decode, h]
   | .str _, .str _, _, _ => by simp [encode, decode]
   | .bool, .bool _, _, _ => by simp [encode, decode]
   | .arr _ nul t, .arr xs, hw, h => by
     simp only [WT] at h
     simp only [Ty.WF] at hw
     simp [encode, decode, decodeItems_encodeItems nul t xs hw h]
-  | .obj fs, .obj ms, hw, h => by
+  | .obj closed fs, .obj ms, hw, h => by
     simp only [WT] at h
     simp only [Ty.WF] at hw
-    have := decodeMembers_encodeFields [] [] fs ms (by simpa using hw.1) hw.2 rfl h
+    have := decodeMembers_encodeFields closed [] [] fs ms (by simpa using hw.1) hw.2 rfl h
     simp only [List.nil_append] at this
     simp [encode, decode, this, requiredOk_of_wt fs ms h]
   | .int _, .omitted, _, h | .int _, .null, _, h | .int _, .str _, _, h | .int _, .bool _, _, h | .int _, .arr _, _, h | .int _, .obj _, _, h => by simp [WT] at h
   | .str _, .omitted, _, h | .str _, .null, _, h | .str _, .int _, _, h | .str _, .bool _, _, h | .str _, .arr _, _, h | .str _, .obj _, _, h => by simp [WT] at h
   | .bool, .omitted, _, h | .bool, .null, _, h | .bool, .int _, _, h | .bool, .str _, _, h | .bool, .arr _, _, h | .bool, .obj _, _, h => by simp [WT] at h
   | .arr _ _ _, .omitted, _, h | .arr _ _ _, .null, _, h | .arr _ _ _, .int _, _, h | .arr _ _ _, .str _, _, h | .arr _ _ _, .bool _, _, h | .arr _ _ _, .obj _, _, h => by simp [WT] at h
-  | .obj _, .omitted, _, h | .obj _, .null, _, h | .obj _, .int _, _, h | .obj _, .str _, _, h | .obj _, .bool _, _, h | .obj _, .arr _, _, h => by simp [WT] at h
+  | .obj _ _, .omitted, _, h | .obj _ _, .null, _, h | .obj _ _, .int _, _, h | .obj _ _, .str _, _, h | .obj _ _, .bool _, _, h | .obj _ _, .arr _, _, h => by simp [WT] at h
 theorem decodeItems_encodeItems (nul : Bool) (t : Ty) : ∀ (xs : List Val), t.WF → WTItems nul t xs →
     decodeItems nul t (encodeItems t xs) = some xs
   | [], _, _ => by simp [encodeItems, decodeItems]
@@ -87,15 +87,15 @@ theorem decodeItems_encodeItems (nul : Bool) (t : Ty) : ∀ (xs : List Val), t.W
       cases x <;> simp_all [memberOk, Val.isOmitted]
     simp only [encodeItems, decodeItems]
     rw [memberOf_encode true nul t x h.1 hx (decode_encode t x hw), decodeItems_encodeItems nul t xs hw h.2]
-theorem decodeMembers_encodeFields (pre : List Field) (preSt : List Val) : ∀ (fs : List Field) (ms : List Val),
+theorem decodeMembers_encodeFields (closed : Bool) (pre : List Field) (preSt : List Val) : ∀ (fs : List Field) (ms : List Val),
     (names (pre ++ fs)).Nodup → Ty.WF.WFs fs → preSt.length = pre.length → WTFields fs ms →
-    decodeMembers (pre ++ fs) (preSt ++ fs.map fun _ => .omitted) (encodeFields fs ms) = some (preSt ++ ms)
+    decodeMembers closed (pre ++ fs) (preSt ++ fs.map fun _ => .omitted) (encodeFields fs ms) = some (preSt ++ ms)
   | [], [], _, _, _, _ => by simp [encodeFields, decodeMembers]
   | [], _ :: _, _, _, _, h | _ :: _, [], _, _, _, h => by simp [WTFields] at h
   | (n, req, nul, t) :: fs, m :: ms, hn, hw, hl, h => by
     simp only [WTFields] at h
     simp only [Ty.WF.WFs] at hw
-    have hrec := decodeMembers_encodeFields (pre ++ [(n, req, nul, t)]) (preSt ++ [m]) fs ms
+    have hrec := decodeMembers_encodeFields closed (pre ++ [(n, req, nul, t)]) (preSt ++ [m]) fs ms
       (by simpa [List.append_assoc] using hn) hw.2 (by simp [hl]) h.2
     simp only [List.append_assoc, List.singleton_append] at hrec
     cases hm : m.isOmitted with
@@ -191,17 +191,21 @@ theorem decode_wt : ∀ (j : Json) (t : Ty) (v : Val), decode t j = some v → W
   | .null, t, v, h => by cases t <;> simp [decode] at h
   | .bool b, t, v, h => by cases t <;> simp [decode] at h; subst h; simp [WT]
   | .str s, t, v, h => by cases t <;> simp [decode] at h; subst h; simp [WT]
-  | .num n, t, v, h => by cases t <;> simp [decode] at h; subst h; simp [WT]
+  | .num (.int n), t, v, h => by
+    cases t <;> simp [decode] at h
+    obtain ⟨hr, rfl⟩ := h
+    simp [WT, hr]
+  | .num .frac, t, v, h => by cases t <;> simp [decode] at h
   | .arr xs, t, v, h => by
     cases t with
     | arr _ nul t =>
       simp only [decode, Option.map_eq_some_iff] at h
       obtain ⟨vs, hvs, rfl⟩ := h
       simpa [WT] using decodeItems_wt xs nul t vs hvs
-    | int _ | str _ | bool | obj _ => simp [decode] at h
+    | int _ | str _ | bool | obj _ _ => simp [decode] at h
   | .obj kvs, t, v, h => by
     cases t with
-    | obj fs =>
+    | obj closed fs =>
       simp only [decode] at h
       split at h
       · rename_i st hst
@@ -209,7 +213,7 @@ theorem decode_wt : ∀ (j : Json) (t : Ty) (v : Val), decode t j = some v → W
         · cases h
           rename_i hr
           simp only [WT]
-          exact wt_of_pwt fs st (decodeMembers_pwt kvs fs _ st (pwt_init fs) hst) hr
+          exact wt_of_pwt fs st (decodeMembers_pwt closed kvs fs _ st (pwt_init fs) hst) hr
         · cases h
       · cases h
     | int _ | str _ | bool | arr _ _ _ => simp [decode] at h
@@ -223,61 +227,82 @@ theorem decodeItems_wt : ∀ (xs : List Json) (nul : Bool) (t : Ty) (vs : List V
       simp only [WTItems]
       exact ⟨(memberOf_wt true nul t x v (decode_wt x t v) hv).1, decodeItems_wt xs nul t vs' hvs⟩
     · cases h
-theorem decodeMembers_pwt : ∀ (kvs : List (String × Json)) (fs : List Field) (st st' : List Val), PWT fs st →
-    decodeMembers fs st kvs = some st' → PWT fs st'
+theorem decodeMembers_pwt (closed : Bool) : ∀ (kvs : List (String × Json)) (fs : List Field) (st st' : List Val), PWT fs st →
+    decodeMembers closed fs st kvs = some st' → PWT fs st'
   | [], _, _, _, hp, h => by simp [decodeMembers] at h; subst h; exact hp
   | (k, jv) :: rest, fs, st, st', hp, h => by
     simp only [decodeMembers] at h
     split at h
-    · exact decodeMembers_pwt rest fs st st' hp h
+    · split at h
+      · cases h
+      · exact decodeMembers_pwt closed rest fs st st' hp h
     · rename_i i nul t hf
       split at h
       · cases h
       · rename_i v hv
         have hm := (memberOf_wt false nul t jv v (decode_wt jv t v) hv).1
         have := pwt_set fs st k 0 i nul t v hf hp hm
-        exact decodeMembers_pwt rest fs _ st' (by simpa using this) h
+        exact decodeMembers_pwt closed rest fs _ st' (by simpa using this) h
 end
 
 /-! ## the decoder accepts exactly the documents the schema admits -/
 
 /-- every member with a known name decodes -/
-def AcceptM (fs : List Field) (kvs : List (String × Json)) : Prop :=
-  ∀ k jv, (k, jv) ∈ kvs → ∀ i nul t, findIdx fs k 0 = some (i, nul, t) → (memberOf nul jv (decode t jv)).isSome
+def AcceptM (closed : Bool) (fs : List Field) (kvs : List (String × Json)) : Prop :=
+  (∀ k jv, (k, jv) ∈ kvs → ∀ i nul t, findIdx fs k 0 = some (i, nul, t) → (memberOf nul jv (decode t jv)).isSome) ∧
+  (closed = true → ∀ k jv, (k, jv) ∈ kvs → (findIdx fs k 0).isSome)
 
-theorem decodeMembers_isSome (fs : List Field) : ∀ (kvs : List (String × Json)) (st : List Val),
-    (decodeMembers fs st kvs).isSome ↔ AcceptM fs kvs
+theorem decodeMembers_isSome (closed : Bool) (fs : List Field) : ∀ (kvs : List (String × Json)) (st : List Val),
+    (decodeMembers closed fs st kvs).isSome ↔ AcceptM closed fs kvs
   | [], st => by simp [decodeMembers, AcceptM]
   | (k, jv) :: rest, st => by
     simp only [decodeMembers]
     cases hf : findIdx fs k 0 with
     | none =>
       simp only
-      rw [decodeMembers_isSome fs rest st]
-      constructor
-      · intro h k' jv' hm i nul t hf'
-        rcases List.mem_cons.mp hm with e | hm
-        · cases e; rw [hf] at hf'; cases hf'
-        · exact h k' jv' hm i nul t hf'
-      · intro h k' jv' hm; exact h k' jv' (List.mem_cons_of_mem _ hm)
+      cases closed with
+      | true =>
+        simp only [if_true, Option.isSome_none, Bool.false_eq_true, false_iff]
+        intro ⟨_, h2⟩
+        have := h2 rfl k jv (List.mem_cons_self ..)
+        rw [hf] at this; cases this
+      | false =>
+        simp only [Bool.false_eq_true, if_false]
+        rw [decodeMembers_isSome false fs rest st]
+        constructor
+        · intro ⟨h, _⟩
+          refine ⟨?_, by intro hc; cases hc⟩
+          intro k' jv' hm i nul t hf'
+          rcases List.mem_cons.mp hm with e | hm
+          · cases e; rw [hf] at hf'; cases hf'
+          · exact h k' jv' hm i nul t hf'
+        · intro ⟨h, _⟩
+          exact ⟨fun k' jv' hm => h k' jv' (List.mem_cons_of_mem _ hm), by intro hc; cases hc⟩
     | some r =>
       obtain ⟨i, nul, t⟩ := r
       simp only
       cases hv : memberOf nul jv (decode t jv) with
       | none =>
         simp only [Option.isSome_none, Bool.false_eq_true, false_iff]
-        intro h
+        intro ⟨h, _⟩
         have := h k jv (List.mem_cons_self ..) i nul t hf
         rw [hv] at this; cases this
       | some v =>
         simp only
-        rw [decodeMembers_isSome fs rest _]
+        rw [decodeMembers_isSome closed fs rest _]
         constructor
-        · intro h k' jv' hm i' nul' t' hf'
-          rcases List.mem_cons.mp hm with e | hm
-          · cases e; rw [hf] at hf'; cases hf'; simp [hv]
-          · exact h k' jv' hm i' nul' t' hf'
-        · intro h k' jv' hm; exact h k' jv' (List.mem_cons_of_mem _ hm)
+        · intro ⟨h, h2⟩
+          refine ⟨?_, ?_⟩
+          · intro k' jv' hm i' nul' t' hf'
+            rcases List.mem_cons.mp hm with e | hm
+            · cases e; rw [hf] at hf'; cases hf'; simp [hv]
+            · exact h k' jv' hm i' nul' t' hf'
+          · intro hc k' jv' hm
+            rcases List.mem_cons.mp hm with e | hm
+            · cases e; rw [hf]; rfl
+            · exact h2 hc k' jv' hm
+        · intro ⟨h, h2⟩
+          exact ⟨fun k' jv' hm => h k' jv' (List.mem_cons_of_mem _ hm), fun hc k' jv' hm => h2 hc k' jv' (List.mem_cons_of_mem _ hm)⟩
 
 /-- the required check, told from the initial state and the members seen -/
 def requiredOk' : List Field → List Val → List (String × Json) → Bool
@@ -338,19 +363,21 @@ theorem memberOf_not_omitted (nul : Bool) (t : Ty) (j : Json) (v : Val) (h : mem
     v.isOmitted = false :=
   (memberOf_wt false nul t j v (decode_wt j t v) h).2
 
-theorem requiredOk_decodeMembers (fs : List Field) (hn : (names fs).Nodup) : ∀ (kvs : List (String × Json)) (st st' : List Val),
-    decodeMembers fs st kvs = some st' → requiredOk fs st' = requiredOk' fs st kvs
+theorem requiredOk_decodeMembers (closed : Bool) (fs : List Field) (hn : (names fs).Nodup) : ∀ (kvs : List (String × Json)) (st st' : List Val),
+    decodeMembers closed fs st kvs = some st' → requiredOk fs st' = requiredOk' fs st kvs
   | [], st, st', h => by simp [decodeMembers] at h; subst h; exact (requiredOk'_nil fs st).symm
   | (k, jv) :: rest, st, st', h => by
     simp only [decodeMembers] at h
     split at h
     · rename_i hf
-      rw [requiredOk_decodeMembers fs hn rest st st' h, requiredOk'_skip k jv rest fs st (findIdx_none fs k 0 hf)]
+      split at h
+      · cases h
+      · rw [requiredOk_decodeMembers closed fs hn rest st st' h, requiredOk'_skip k jv rest fs st (findIdx_none fs k 0 hf)]
     · rename_i i nul t hf
       split at h
       · cases h
       · rename_i v hv
-        rw [requiredOk_decodeMembers fs hn rest _ st' h]
+        rw [requiredOk_decodeMembers closed fs hn rest _ st' h]
         have := requiredOk'_set k jv rest v (memberOf_not_omitted nul t jv v hv) fs st 0 i nul t hf hn
         simpa using this
 
@@ -422,30 +449,49 @@ theorem uniqueKeysM_mem : ∀ (kvs : List (String × Json)) (k : String) (jv : J
     · cases e; exact hu.1
     · exact uniqueKeysM_mem r k jv hu.2 h
 
+theorem findIdx_isSome_iff : ∀ (fs : List Field) (k : String) (i0 : Nat), (findIdx fs k i0).isSome ↔ k ∈ names fs
+  | [], _, _ => by simp [findIdx, names]
+  | (n, _, _, _) :: fs, k, i0 => by
+    simp only [findIdx, names, List.map_cons, List.mem_cons]
+    split
+    · rename_i h; have : n = k := by simpa using h
+      simp [this]
+    · rename_i h
+      have hne : ¬ k = n := fun e => h (by simp [e])
+      rw [findIdx_isSome_iff fs k (i0 + 1)]
+      simp [hne, names]
+
 /-- object case, given the statement for every member value -/
-theorem accept_obj (fs : List Field) (kvs : List (String × Json)) (hn : (names fs).Nodup) (hw : Ty.WF.WFs fs)
+theorem accept_obj (closed : Bool) (fs : List Field) (kvs : List (String × Json)) (hn : (names fs).Nodup) (hw : Ty.WF.WFs fs)
     (hk : (kvs.map (·.1)).Nodup)
     (ih : ∀ k jv, (k, jv) ∈ kvs → ∀ t : Ty, t.WF → ((decode t jv).isSome ↔ Valid t jv)) :
-    (decode (.obj fs) (.obj kvs)).isSome ↔ Valid (.obj fs) (.obj kvs) := by
-  have hdec : (decode (.obj fs) (.obj kvs)).isSome ↔
-      AcceptM fs kvs ∧ requiredOk' fs (fs.map fun _ => .omitted) kvs = true := by
+    (decode (.obj closed fs) (.obj kvs)).isSome ↔ Valid (.obj closed fs) (.obj kvs) := by
+  have hdec : (decode (.obj closed fs) (.obj kvs)).isSome ↔
+      AcceptM closed fs kvs ∧ requiredOk' fs (fs.map fun _ => .omitted) kvs = true := by
     simp only [decode]
-    cases hd : decodeMembers fs (fs.map fun _ => .omitted) kvs with
+    cases hd : decodeMembers closed fs (fs.map fun _ => .omitted) kvs with
     | none =>
-      have : ¬ AcceptM fs kvs := fun ha => by
-        have := (decodeMembers_isSome fs kvs (fs.map fun _ => .omitted)).mpr ha
+      have : ¬ AcceptM closed fs kvs := fun ha => by
+        have := (decodeMembers_isSome closed fs kvs (fs.map fun _ => .omitted)).mpr ha
         rw [hd] at this; cases this
       simp [this]
     | some st =>
-      have ha := (decodeMembers_isSome fs kvs (fs.map fun _ => .omitted)).mp (by rw [hd]; rfl)
-      have hr := requiredOk_decodeMembers fs hn kvs _ st hd
+      have ha := (decodeMembers_isSome closed fs kvs (fs.map fun _ => .omitted)).mp (by rw [hd]; rfl)
+      have hr := requiredOk_decodeMembers closed fs hn kvs _ st hd
       show (if requiredOk fs st = true then some (Val.obj st) else none).isSome = true ↔ _
       rw [hr]
       cases requiredOk' fs (fs.map fun _ => .omitted) kvs <;> simp [ha]
   rw [hdec, requiredOk'_init]
-  simp only [Valid, validFields_iff]
+  simp only [Valid, validFields_iff, AcceptM]
+  have hclosed : (closed = true → ∀ k jv, (k, jv) ∈ kvs → (findIdx fs k 0).isSome) ↔
+      (closed = true → ∀ kv ∈ kvs, kv.1 ∈ names fs) := by
+    constructor
+    · intro h hc kv hkv; exact (findIdx_isSome_iff fs kv.1 0).mp (h hc kv.1 kv.2 hkv)
+    · intro h hc k jv hm; exact (findIdx_isSome_iff fs k 0).mpr (h hc (k, jv) hm)
   constructor
-  · intro ⟨ha, hr⟩ f hf
+  · intro ⟨⟨ha, hcl⟩, hr⟩
+    refine ⟨?_, hclosed.mp hcl⟩
+    intro f hf
     obtain ⟨n, req, nul, t⟩ := f
     cases hl : lookupJ kvs n with
     | none =>
@@ -461,8 +507,8 @@ theorem accept_obj (fs : List Field) (kvs : List (String × Json)) (hn : (names 
       have := ha n j hm i nul t hi
       rw [memberOf_isSome] at this
       exact (slotOk_congr nul j (ih n j hm t (wfs_mem fs _ hw hf))).mp this
-  · intro h
-    refine ⟨?_, ?_⟩
+  · intro ⟨h, hcl⟩
+    refine ⟨⟨?_, hclosed.mpr hcl⟩, ?_⟩
     · intro k jv hm i nul t hf
       obtain ⟨req, hmem⟩ := findIdx_some_mem fs k 0 i nul t hf
       have := h _ hmem
@@ -488,7 +534,9 @@ theorem accept_iff : ∀ (j : Json) (t : Ty), t.WF → UniqueKeys j → ((decode
   | .null, t, _, _ => by cases t <;> simp [decode, Valid]
   | .bool _, t, _, _ => by cases t <;> simp [decode, Valid]
   | .str _, t, _, _ => by cases t <;> simp [decode, Valid]
-  | .num _, t, _, _ => by cases t <;> simp [decode, Valid]
+  | .num (.int n), t, _, _ => by
+    cases t <;> simp [decode, Valid]
+  | .num .frac, t, _, _ => by cases t <;> simp [decode, Valid]
   | .arr xs, t, hw, hu => by
     cases t with
     | arr _ nul t =>
@@ -499,13 +547,13 @@ theorem accept_iff : ∀ (j : Json) (t : Ty), t.WF → UniqueKeys j → ((decode
       constructor
       · intro h x hx; exact (slotOk_congr nul x (ih x hx)).mp ((memberOf_isSome nul x _).mp (h x hx))
       · intro h x hx; exact (memberOf_isSome nul x _).mpr ((slotOk_congr nul x (ih x hx)).mpr (h x hx))
-    | int _ | str _ | bool | obj _ => simp [decode, Valid]
+    | int _ | str _ | bool | obj _ _ => simp [decode, Valid]
   | .obj kvs, t, hw, hu => by
     cases t with
-    | obj fs =>
+    | obj closed fs =>
       simp only [Ty.WF] at hw
       simp only [UniqueKeys] at hu
-      exact accept_obj fs kvs hw.1 hw.2 hu.1 (accept_members kvs hu.2)
+      exact accept_obj closed fs kvs hw.1 hw.2 hu.1 (accept_members kvs hu.2)
     | int _ | str _ | bool | arr _ _ _ => simp [decode, Valid]
 theorem accept_items : ∀ (xs : List Json) (t : Ty), t.WF → UniqueKeysL xs → ∀ x ∈ xs, ((decode t x).isSome ↔ Valid t x)
   | [], _, _, _, _, h => by cases h
@@ -542,10 +590,10 @@ theorem encode_uniqueKeys : ∀ (v : Val) (t : Ty), t.WF → UniqueKeys (encode 
   | .arr xs, t, hw => by
     cases t with
     | arr _ nul t => simp only [Ty.WF] at hw; simpa [encode, UniqueKeys] using encodeItems_uniqueKeys xs t hw
-    | int _ | str _ | bool | obj _ => simp [encode, UniqueKeys]
+    | int _ | str _ | bool | obj _ _ => simp [encode, UniqueKeys]
   | .obj ms, t, hw => by
     cases t with
-    | obj fs =>
+    | obj _ fs =>
       simp only [Ty.WF] at hw
       simp only [encode, UniqueKeys]
       exact ⟨(encodeFields_keys fs ms).nodup hw.1, encodeFields_uniqueKeys ms fs hw.2⟩
@@ -574,10 +622,10 @@ theorem decode_canonical (t : Ty) (j : Json) (v : Val) (hw : t.WF) (h : decode t
     decode t (encode t v) = some v := decode_encode t v hw (decode_wt j t v h)
 
 /-! non-vacuity: a schema with every kind of member, a value in each of the three states, a refused document -/
-def exTy : Ty := .obj [("id", true, false, .int {}), ("tag", false, true, .str {}), ("xs", false, false, .arr {} true (.int {})),
-  ("in", true, true, .obj [("b", false, false, .bool)])]
+def exTy : Ty := .obj false [("id", true, false, .int {}), ("tag", false, true, .str {}), ("xs", false, false, .arr {} true (.int {})),
+  ("in", true, true, .obj true [("b", false, false, .bool)])]
 example : exTy.WF := by simp [exTy, Ty.WF, Ty.WF.WFs, names]
-example : WT exTy (.obj [.int 7, .null, .omitted, .obj [.bool true]]) := by simp [exTy, WT, WTFields, memberOk]
+example : WT exTy (.obj [.int 7, .null, .omitted, .obj [.bool true]]) := by simp [exTy, WT, WTFields, memberOk, inRange]
 example : decode exTy (.obj [("in", .null), ("zz", .num 1), ("xs", .arr [.null, .num 2]), ("id", .num 7)])
     = some (.obj [.int 7, .omitted, .arr [.null, .int 2], .null]) := by rfl
 example : encode exTy (.obj [.int 7, .omitted, .arr [.null, .int 2], .null])
